@@ -62,6 +62,17 @@ CLAIMED['C02'] = dict(
          'Captures / LyBox / Closure accessors are executed from laythe_core MIR.',
     ref='§4 C02')
 
+CLAIMED['C14'] = dict(
+    text='Decides with Z3 over the real MIR of both Value implementations (tagged enum and NaN-boxed; two MIR dumps): C14.D1 every '
+         'predicate/accessor agrees with a reference decoding of the representation for every well-formed value, every f64 bit '
+         'pattern outside the tag space / bool / nil round-trips bit for bit, == is the language equality (IEEE on numbers) and '
+         'Hash is consistent with it; C14.D2 the C01 operator and branch obligations are discharged again on the NaN-boxed '
+         'interpreter, so both builds compute the same results for every operand pair. The genuine divergence F9 (bitwise == / '
+         'hash in the NaN-boxed build) is reported as a known finding. Object layouts that differ by representation are C20.',
+    note='Trusted: rustc MIR printer, mirsym (union and transmute modelling; NaN results are one of the two canonical quiet NaNs), '
+         'abstract object identities (pointer<->integer conversions carry the identity), Z3 FP theory.',
+    ref='§4 C14')
+
 NOT_APPLICABLE = {
     'C08': 'global liveness of the fiber scheduler needs the running Vm (DESIGN.md §6); no bounded symbolic encoding of the real scheduler is within reach',
 }
